@@ -490,7 +490,9 @@ func sceneDupOpen(b *behaviour) *fw.Trace {
 	if err := open(); err != nil {
 		return derr("%v", err)
 	}
-	if !waitFor(settleMax, func() bool { return int(gen.Load()) >= 2 && running() == 1 && strings.Count(allStacks(), "iocopy.Bidirectional(") >= 1 }) {
+	if !waitFor(settleMax, func() bool {
+		return int(gen.Load()) >= 2 && running() == 1 && strings.Count(allStacks(), "iocopy.Bidirectional(") >= 1
+	}) {
 		return &fw.Trace{Status: fw.Inconclusive, Note: fmt.Sprintf("the second target tunnel did not replace the first within the margin (handlers running: %d)", running())}
 	}
 	time.Sleep(5 * time.Millisecond)
@@ -602,7 +604,7 @@ func sceneClientStress(b *behaviour) *fw.Trace {
 
 func (w *pworld) pushNow(x string, node int) {
 	p := int(w.npush.Add(1))
-	w.pcall(p, x)
+	w.pcall(p, x, node)
 	w.push(p, x, node)
 }
 
